@@ -173,7 +173,7 @@ def finishMsg (s : KSt) : Msg :=
     (match s.msg with
      | .diverged => .divergedZero | .stagnated => .stagnatedZero | _ => .emptyZero)
   else match s.info with
-    | some i => if i < 0 then (if s.msg == .empty then .sslError else s.msg)
+    | some i => if i < 0 then (if s.msg == .empty || s.msg == .converged then .sslError else s.msg)
                 else if i > 0 then .maxit else .converged
     | none => s.msg
 
